@@ -267,5 +267,19 @@ def intoSignTyped (r : Rep) : M (Bool × Typed) := do
 def asIbig (r : Rep) : Rep := r
 def asUbig (r : Rep) : Option Rep := if r.isNeg then none else some r
 
+/-- `Repr::as_full_slice` (feature `zeroize`) — unsafe block repr.rs:253: the two inline words when
+    `capacity ≤ 2`, else `from_raw_parts_mut(heap.0, capacity)`: the whole allocation; with the writes
+    `zeroize()` performs on it -/
+def fullSliceZero (r : Rep) : M Unit :=
+  match r with
+  | heap id cap _ _ => emits (wr id 0 cap)
+  | inline .. => pure ()
+
+/-- `<Repr as Zeroize>::zeroize` (third_party/zeroize.rs:19): `as_full_slice().zeroize()` then
+    `self.clone_from(&Repr::zero())`, which frees a heap buffer -/
+def zeroize (mx : Nat) (r : Rep) : M Rep := do
+  fullSliceZero r
+  cloneFrom mx r (fromWord 0)
+
 end Rep
 end Dashu.Model.Mem
